@@ -50,6 +50,19 @@ def IntFits (w : Nat) (i : Int) : Prop := -(256 ^ w : Nat) ≤ 2 * i ∧ 2 * i <
 
 instance (w : Nat) (i : Int) : Decidable (IntFits w i) := by unfold IntFits; infer_instance
 
+/-- `IntFits` as a Boolean, by cases on the sign with `Nat.blt` / `Nat.ble`: reducing it on a symbolic
+    value gets stuck at once (the `Decidable` instance above would unfold a `256^w`-deep numeral). -/
+def intFitsB (w : Nat) (i : Int) : Bool :=
+  match i with
+  | .ofNat n => Nat.blt (2 * n) (256 ^ w)
+  | .negSucc n => Nat.ble (2 * (n + 1)) (256 ^ w)
+
+theorem intFitsB_iff (w : Nat) (i : Int) : intFitsB w i = true ↔ IntFits w i := by
+  unfold intFitsB IntFits
+  cases i with
+  | ofNat n => simp only [Nat.blt_eq, Int.ofNat_eq_natCast]; constructor <;> intro h <;> omega
+  | negSucc n => simp only [Nat.ble_eq, Int.negSucc_eq]; constructor <;> intro h <;> omega
+
 theorem toIntBE_ofIntBE (w : Nat) (i : Int) (h : IntFits w i) : toIntBE (ofIntBE w i) = i := by
   unfold IntFits at h
   have hpos : (0 : Int) < (256 ^ w : Nat) := by
@@ -112,10 +125,10 @@ def uintN (w : Nat) : Codec Nat where
 def intN (w : Nat) : Codec Int where
   enc i := ofIntBE w i
   dec bs := if bs.length < w then none else some (toIntBE (bs.take w), bs.drop w)
-  valid i := decide (IntFits w i)
+  valid i := intFitsB w i
   law := by
     intro i rest h
-    have h : IntFits w i := of_decide_eq_true h
+    have h : IntFits w i := (intFitsB_iff w i).mp h
     have hl : (ofIntBE w i).length = w := ofIntBE_length w i
     have : ¬ (ofIntBE w i ++ rest).length < w := by simp [hl]
     simp only [this, if_false, List.take_left' hl, List.drop_left' hl, toIntBE_ofIntBE w i h]
@@ -123,7 +136,7 @@ def intN (w : Nat) : Codec Int where
 theorem intN_law' (w : Nat) (i : Int) (rest : Bytes) (h : IntFits w i) :
     (if (ofIntBE w i ++ rest).length < w then none
      else some (toIntBE ((ofIntBE w i ++ rest).take w), (ofIntBE w i ++ rest).drop w)) = some (i, rest) :=
-  (intN w).law i rest (decide_eq_true h)
+  (intN w).law i rest ((intFitsB_iff w i).mpr h)
 
 def uint8 : Codec Nat := uintN 1
 def uint32 : Codec Nat := uintN 4
@@ -244,11 +257,11 @@ def array {α : Type} (c : Codec α) : Codec (List α) where
   dec bs := match int32.dec bs with
     | none => none
     | some (n, r) => if n < 0 then none else decN c n.toNat r
-  valid l := decide (IntFits 4 l.length) && l.all c.valid
+  valid l := intFitsB 4 l.length && l.all c.valid
   law := by
     intro l rest h
     have h := Bool.and_eq_true_iff.mp h
-    have h1 := intN_law' 4 (l.length : Int) (encAll c l ++ rest) (of_decide_eq_true h.1)
+    have h1 := intN_law' 4 (l.length : Int) (encAll c l ++ rest) ((intFitsB_iff _ _).mp h.1)
     simp only [int32, intN, List.append_assoc, h1]
     have : ¬ ((l.length : Int) < 0) := by omega
     simp only [this, if_false, Int.toNat_natCast, decN_encAll c l rest (List.all_eq_true.mp h.2)]
@@ -261,10 +274,10 @@ def lenPrefixed (lenW : Nat) : Codec Bytes where
   dec bs := match (intN lenW).dec bs with
     | none => none
     | some (n, r) => if n < 0 then none else if r.length < n.toNat then none else some (r.take n.toNat, r.drop n.toNat)
-  valid b := decide (IntFits lenW b.length)
+  valid b := intFitsB lenW b.length
   law := by
     intro b rest h
-    have h1 := intN_law' lenW (b.length : Int) (b ++ rest) (of_decide_eq_true h)
+    have h1 := intN_law' lenW (b.length : Int) (b ++ rest) ((intFitsB_iff _ _).mp h)
     simp only [intN, List.append_assoc, h1]
     have h0 : ¬ ((b.length : Int) < 0) := by omega
     have h2 : ¬ (b ++ rest).length < b.length := by simp
@@ -281,16 +294,16 @@ def nullablePrefixed (lenW : Nat) : Codec (Option Bytes) where
       if n = -1 then some (none, r)
       else if n < 0 then none else if r.length < n.toNat then none else some (some (r.take n.toNat), r.drop n.toNat)
   valid
-    | none => decide (IntFits lenW (-1))
-    | some b => decide (IntFits lenW b.length)
+    | none => intFitsB lenW (-1)
+    | some b => intFitsB lenW b.length
   law := by
     intro a rest h
     cases a with
     | none =>
-      have h1 := intN_law' lenW (-1) rest (of_decide_eq_true h)
+      have h1 := intN_law' lenW (-1) rest ((intFitsB_iff _ _).mp h)
       simp only [intN, h1, if_true]
     | some b =>
-      have h1 := intN_law' lenW (b.length : Int) (b ++ rest) (of_decide_eq_true h)
+      have h1 := intN_law' lenW (b.length : Int) (b ++ rest) ((intFitsB_iff _ _).mp h)
       simp only [intN, List.append_assoc, h1]
       have hm : ¬ ((b.length : Int) = -1) := by omega
       have h0 : ¬ ((b.length : Int) < 0) := by omega
@@ -331,11 +344,11 @@ def sized32 {α : Type} (e : Exact α) : Codec α where
       else match e.dec (r.take n.toNat) with
         | none => none
         | some a => some (a, r.drop n.toNat)
-  valid a := e.valid a && decide (IntFits 4 (e.enc a).length)
+  valid a := e.valid a && intFitsB 4 (e.enc a).length
   law := by
     intro a rest h
     have h := Bool.and_eq_true_iff.mp h
-    have h1 := intN_law' 4 ((e.enc a).length : Int) (e.enc a ++ rest) (of_decide_eq_true h.2)
+    have h1 := intN_law' 4 ((e.enc a).length : Int) (e.enc a ++ rest) ((intFitsB_iff _ _).mp h.2)
     simp only [int32, intN, List.append_assoc, h1]
     have h0 : ¬ (((e.enc a).length : Int) < 0) := by omega
     have h2 : ¬ (e.enc a ++ rest).length < (e.enc a).length := by simp
@@ -414,5 +427,53 @@ def many {α : Type} (c : Codec α) : Exact (List α) where
       have := (Bool.and_eq_true_iff.mp (h a ha)).2
       simp [hnil] at this
     exact decMany_encAll c l _ (encAll_length_ge c l hne) hv hne
+
+
+/-! ## what `valid` means, combinator by combinator (accessors for proofs about users of the grammar) -/
+
+theorem intN_valid {w : Nat} {i : Int} (h : (intN w).valid i = true) : IntFits w i := (intFitsB_iff w i).mp h
+
+theorem seq_valid {α β : Type} {a : Codec α} {b : Codec β} {p : α × β} (h : (a ⊗ b).valid p = true) :
+    a.valid p.1 = true ∧ b.valid p.2 = true := Bool.and_eq_true_iff.mp h
+
+theorem seq_enc {α β : Type} (a : Codec α) (b : Codec β) (p : α × β) : (a ⊗ b).enc p = a.enc p.1 ++ b.enc p.2 := rfl
+
+theorem lenPrefixed_valid {w : Nat} {b : Bytes} (h : (lenPrefixed w).valid b = true) : IntFits w b.length :=
+  (intFitsB_iff _ _).mp h
+
+theorem lenPrefixed_enc (w : Nat) (b : Bytes) : (lenPrefixed w).enc b = ofIntBE w b.length ++ b := rfl
+
+theorem nullablePrefixed_valid_some {w : Nat} {b : Bytes} (h : (nullablePrefixed w).valid (some b) = true) :
+    IntFits w b.length := (intFitsB_iff _ _).mp h
+
+theorem nullablePrefixed_valid_none {w : Nat} (h : (nullablePrefixed w).valid none = true) : IntFits w (-1) :=
+  (intFitsB_iff _ _).mp h
+
+theorem nullablePrefixed_enc_some (w : Nat) (b : Bytes) : (nullablePrefixed w).enc (some b) = ofIntBE w b.length ++ b := rfl
+theorem nullablePrefixed_enc_none (w : Nat) : (nullablePrefixed w).enc none = ofIntBE w (-1) := rfl
+
+theorem array_valid {α : Type} {c : Codec α} {l : List α} (h : (array c).valid l = true) :
+    IntFits 4 l.length ∧ ∀ a ∈ l, c.valid a = true := by
+  have h := Bool.and_eq_true_iff.mp h
+  exact ⟨(intFitsB_iff _ _).mp h.1, List.all_eq_true.mp h.2⟩
+
+theorem array_enc' {α : Type} (c : Codec α) (l : List α) : (array c).enc l = ofIntBE 4 l.length ++ encAll c l := rfl
+
+theorem sized32_valid {α : Type} {e : Exact α} {a : α} (h : (sized32 e).valid a = true) :
+    e.valid a = true ∧ IntFits 4 (e.enc a).length := by
+  have h := Bool.and_eq_true_iff.mp h
+  exact ⟨h.1, (intFitsB_iff _ _).mp h.2⟩
+
+theorem sized32_enc {α : Type} (e : Exact α) (a : α) : (sized32 e).enc a = ofIntBE 4 (e.enc a).length ++ e.enc a := rfl
+
+theorem many_valid {α : Type} {c : Codec α} {l : List α} (h : (many c).valid l = true) :
+    ∀ a ∈ l, c.valid a = true := by
+  intro a ha
+  exact (Bool.and_eq_true_iff.mp (List.all_eq_true.mp h a ha)).1
+
+theorem many_enc {α : Type} (c : Codec α) (l : List α) : (many c).enc l = encAll c l := rfl
+
+theorem encAll_cons {α : Type} (c : Codec α) (a : α) (l : List α) : encAll c (a :: l) = c.enc a ++ encAll c l := rfl
+theorem encAll_nil {α : Type} (c : Codec α) : encAll c [] = [] := rfl
 
 end Afkak.Codec
